@@ -3,11 +3,13 @@
 //! It contains no oracle; TLC decides.
 
 mod actor;
+mod codec;
 mod docs;
 mod heads;
 mod query;
 mod replica;
 mod session;
+mod syncsession;
 mod world;
 
 use std::{collections::HashMap, path::PathBuf};
@@ -91,6 +93,17 @@ fn main() {
             let mut rng = Rng::new(seed);
             let scheds = args.kv.get("schedules").map(|p| read_schedules(p)).unwrap_or_default();
             actor::run(w, seed, &mut rng, scheds, args.num("n", 60) as usize, &dir, &mut trace, &mut sum);
+        }
+        "codec" => {
+            let w = World::new(seed, 3, 3);
+            let mut rng = Rng::new(seed);
+            codec::run(&w, seed, &mut rng, args.num("n", 4) as usize, &mut trace, &mut sum);
+        }
+        "syncsession" => {
+            let w = World::new(seed, 3, 3);
+            let mut rng = Rng::new(seed);
+            let scheds = args.kv.get("schedules").map(|p| read_schedules(p)).unwrap_or_default();
+            syncsession::run(&w, seed, &mut rng, scheds, args.num("n", 60) as usize, &mut trace, &mut sum);
         }
         "docs" => {
             let w = World::new(seed, 3, 7);
